@@ -34,7 +34,7 @@ LEVEL_TEXT = ("Generated importable modules (docstrings opened on their own line
               "must locate its first source line in the file, failed_lineno() must be the by-construction failing line "
               "(which for exceptions must also be what CPython's own traceback gives) and repr_failure() must print the same "
               "number. Randomised exploration with shrinking.")
-LEVEL_ADDED = ('A quarter of the module files are written over an earlier layout of themselves that was collected a moment before (positions are those of the file as it is now); files may open with blank lines.')
+LEVEL_ADDED = ("A quarter of the module files are written over an earlier layout of themselves that was collected a moment before (positions are those of the file as it is now); files may open with blank lines. 'Args:' prose may hold characters only str.splitlines() takes for line ends (finding F18); a tenth failing kind is a directive that cannot be applied, on a later statement.")
 LEVEL_NOTE = ("Trusted: the generator's line bookkeeping (self-checked against the file text and against CPython's traceback "
               "on every case). Docstrings with escapes that create or remove newlines are outside the domain. Finding F7 "
               "(start line of a google block whose body does not begin with a prompt) is a known finding keyed on exactly "
